@@ -360,6 +360,15 @@ def finish(ctx):
         "known_findings_seen": sorted(printed_known),
     }
     cov.update(ctx.extra)
+    # schema hygiene for keys the evidence schema types
+    if not isinstance(cov.get("exhaustive", False), bool):
+        cov["exhaustive_note"] = str(cov["exhaustive"])
+        cov["exhaustive"] = False
+    for k in ("states", "transitions", "traces_validated_against_impl", "programs", "disagreements_checked"):
+        if k in cov and not isinstance(cov[k], int):
+            cov[k + "_note"] = str(cov.pop(k))
+    if "explanation" in cov and not isinstance(cov["explanation"], str):
+        cov["explanation"] = str(cov["explanation"])
     ev = {
         "property_id": ctx.prop,
         "tier": ctx.tier,
